@@ -269,20 +269,23 @@ theorem checkInputs_ok_iff (inputs : List (String × Val)) (fx : List (String ×
     (1) every key built from it indexes every *input* array that carries a fixed axis — an integer must lie in `[-d, d)` for
     the dimension `d` (`selIndices_idx`), a slice is never out of range (`selIndices_slice`; only a zero step is refused);
     (2) every fixed axis is the name of an axis of some MapSpec array; (3) no fixed axis is reduced — taken whole by a
-    function, or sliced with `:` in a function's MapSpec. -/
+    function, or sliced with `:` in a function's MapSpec; (4) (round 3, repair DF-C06-internal-axis) every fixed axis is
+    mapped over by some function — it is among the input indices of some MapSpec; an axis that exists only as an internal
+    axis of outputs (`internal_shape`) cannot be selected. -/
 theorem C06_reject (fs : List MFunc) (inputs : List (String × Val)) (fx : List (String × Sel)) :
     validateFixed fs inputs (some fx) = .ok () ↔
       (∀ pa ∈ mapspecAxes fs, ∀ v sh, alookup inputs pa.1 = some v → shapeOf v = some sh →
           ∀ sd ∈ List.zip (pa.2.map (axisSel fx)) sh, ∃ r, selIndices sd.2 sd.1 = .ok r) ∧
       (∀ kv ∈ fx, kv.1 ∈ knownAxes (mapspecAxes fs)) ∧
-      (∀ kv ∈ fx, kv.1 ∉ reducedAxes fs (mapspecAxes fs)) := by
+      (∀ kv ∈ fx, kv.1 ∉ reducedAxes fs (mapspecAxes fs)) ∧
+      (∀ kv ∈ fx, kv.1 ∈ mappedAxes fs) := by
   unfold validateFixed
   simp only [bind, Except.bind]
   cases hc : checkInputs inputs fx (mapspecAxes fs) with
   | error e =>
     constructor
     · intro h; cases h
-    · rintro ⟨h, _, _⟩
+    · rintro ⟨h, _, _, _⟩
       have := (checkInputs_ok_iff inputs fx (mapspecAxes fs)).mpr h
       rw [hc] at this; cases this
   | ok u =>
@@ -292,7 +295,7 @@ theorem C06_reject (fs : List MFunc) (inputs : List (String × Val)) (fx : List 
     · simp only [hk, ↓reduceIte]
       constructor
       · intro h; cases h
-      · rintro ⟨_, h2, _⟩
+      · rintro ⟨_, h2, _, _⟩
         obtain ⟨kv, hkv, hb⟩ := List.any_eq_true.mp hk
         have := h2 kv hkv
         simp [this] at hb
@@ -306,13 +309,27 @@ theorem C06_reject (fs : List MFunc) (inputs : List (String × Val)) (fx : List 
       · simp only [hr, ↓reduceIte]
         constructor
         · intro h; cases h
-        · rintro ⟨_, _, h3⟩
+        · rintro ⟨_, _, h3, _⟩
           obtain ⟨kv, hkv, hb⟩ := List.any_eq_true.mp hr
           exact absurd (by simpa using hb) (h3 kv hkv)
-      · simp only [hr, Bool.false_eq_true, ↓reduceIte, pure, Except.pure, true_iff]
-        refine ⟨h1, h2, ?_⟩
-        intro kv hkv hm
-        exact hr (List.any_eq_true.mpr ⟨kv, hkv, by simpa using hm⟩)
+      · simp only [hr, Bool.false_eq_true, ↓reduceIte]
+        have h3 : ∀ kv ∈ fx, kv.1 ∉ reducedAxes fs (mapspecAxes fs) := by
+          intro kv hkv hm
+          exact hr (List.any_eq_true.mpr ⟨kv, hkv, by simpa using hm⟩)
+        by_cases hi : fx.any (fun kv => !(mappedAxes fs).contains kv.1) = true
+        · simp only [hi, ↓reduceIte]
+          constructor
+          · intro h; cases h
+          · rintro ⟨_, _, _, h4⟩
+            obtain ⟨kv, hkv, hb⟩ := List.any_eq_true.mp hi
+            have := h4 kv hkv
+            simp [this] at hb
+        · simp only [hi, Bool.false_eq_true, ↓reduceIte, pure, Except.pure, true_iff]
+          refine ⟨h1, h2, h3, ?_⟩
+          intro kv hkv
+          by_cases hm : kv.1 ∈ mappedAxes fs
+          · exact hm
+          · exact absurd (List.any_eq_true.mpr ⟨kv, hkv, by simp [hm]⟩) hi
 
 /-- an integer outside `[-d, d)` is an `IndexError`; a zero step a `ValueError` -/
 theorem C06_reject_class (d : Nat) :
